@@ -43,6 +43,11 @@ def native_backedge_rule(F, R, rid, why):
 
 
 def run(F, R, ctx):
+    _run(F, R, ctx)
+    interrupt_sticky_rule(F, R)
+
+
+def _run(F, R, ctx):
     R.rule("C17.a", "in VmCore::vm the call to safepoint_or_interrupt lies on every cycle through the opcode dispatch and "
                     "dominates it, and its Err is propagated to a return")
     R.rule("C17.b", "every native loop back-edge emitter is accompanied by a polling helper (same construct as C16.b)")
@@ -129,3 +134,61 @@ def run(F, R, ctx):
                st_flag and st_state and okf and want_state in agg,
                "ThreadStateController::%s no longer stores both the paused flag (%s) and ThreadState::%s" % (nm, want_flag, want_state),
                fn.loc(), sample={"flag_args": flagval, "states": agg})
+
+
+RESUME_CALLERS = {
+    "InterruptHandler::run_with_timeout": "the host's watchdog acknowledging the interrupt after the evaluation returned",
+    "vm::threads::thread_resume": "the thread-resume primitive: an explicit request by the program",
+}
+
+
+def interrupt_sticky_rule(F, R):
+    R.rule("C17.f", "a pending interrupt request is cleared only by an explicit resume: (1) ThreadStateController::resume — the "
+                    "one operation that unconditionally stores Running — is called only by the host watchdog and the "
+                    "thread-resume primitive, never by the stop-the-world protocol or by the VM's own poll; (2) every other "
+                    "method of ThreadStateController that stores a state other than Interrupted (pause_for_safepoint, the undo "
+                    "of it) does so by compare_exchange from a value it has compared with Interrupted, not by a plain store; "
+                    "suspend is exempt (a program's own request). Otherwise an interrupt that arrives while the thread — or "
+                    "any other thread — is defining or assigning a global is overwritten before it is seen")
+    callers = []
+    for n, fn in sorted(F.fns.items()):
+        if not n.startswith("steel::"):
+            continue
+        for i, b in fn.calls():
+            if re.search(r"\{impl ThreadStateController\}::resume$", b["callee"]):
+                callers.append((fn, b))
+    R.floor("C17.f", "callers of ThreadStateController::resume", len(callers), 2)
+    seen = set()
+    for fn, b in callers:
+        key = fn.short()
+        if key in seen:
+            continue
+        seen.add(key)
+        ok = key in RESUME_CALLERS
+        R.inst("C17.f", "%s may clear an interrupt (resume)" % key, ok,
+               "%s calls ThreadStateController::resume (line %s), which stores Running unconditionally: an interrupt request "
+               "that has not been delivered (or whose error a handler has caught) is discarded — a loop that assigns a global, "
+               "or a supervisor that catches errors, can no longer be stopped by the host" % (key, b["line"]),
+               fn.loc(b["line"]), sample={"reason": RESUME_CALLERS.get(key)})
+    meths = [f for n, f in F.fns.items() if "{impl ThreadStateController}::" in n]
+    n = 0
+    for f in sorted(meths, key=lambda x: x.name):
+        nm = f.short().split("::")[-1]
+        if nm in ("resume", "interrupt", "suspend"):
+            continue
+        stores = [b for _, b in f.calls() if re.search(r"AtomicCell<T>\}::store$", b["callee"]) and b["targs"] and
+                  "ThreadState" in b["targs"][0]]
+        cas = [b for _, b in f.calls() if re.search(r"AtomicCell<T>\}::compare_exchange$", b["callee"]) and b["targs"] and
+               "ThreadState" in b["targs"][0]]
+        if not stores and not cas:
+            continue
+        n += 1
+        loads = [b for _, b in f.calls() if re.search(r"AtomicCell<T>\}::load$", b["callee"]) and b["targs"] and
+                 "ThreadState" in b["targs"][0]]
+        cmp_int = bool(loads) and (bool(f.call_blocks(r"PartialEq<ThreadState> for ThreadState\}::(eq|ne)$")) or
+                                   bool(lib.enum_switches(f, "ThreadState")))
+        R.inst("C17.f", "ThreadStateController::%s preserves a pending interrupt" % nm, not stores and bool(cas) and cmp_int,
+               "ThreadStateController::%s stores a thread state unconditionally (AtomicCell::store) instead of exchanging it "
+               "from a value it has checked against Interrupted: an interrupt requested just before is overwritten" % nm,
+               f.loc(), sample={"plain_stores": len(stores), "compare_exchanges": len(cas)})
+    R.floor("C17.f", "state-changing controller methods besides resume/interrupt/suspend", n, 1)
